@@ -52,7 +52,7 @@ def flatten : List Stmt → List (Sum String Nat)
 
 /-- No two mergeable subincludes are adjacent. -/
 def NoAdjacent : List Stmt → Prop
-  | .sub _ :: .sub b :: r => False ∧ NoAdjacent (.sub b :: r)
+  | .sub _ :: .sub _ :: _ => False
   | _ :: r => NoAdjacent r
   | [] => True
 
